@@ -215,6 +215,11 @@ def require_lockable_memory():
         raise ToolError("this environment cannot lock memory (mlock of 64 pages fails with errno %d): protected-memory checks cannot run here" % _env_ok[1])
 
 
+# the optimised profile: debug assertions and overflow checks compiled out.  Every check replays the core of its sweep under it
+# as well ("[nightly-release] " in reports): what the code does only inside a debug_assert! it does not do there
+RELEASE = "nightly-release"
+
+
 def build_harness(config="stable"):
     """Builds the harness against /repo's working tree. config: stable | nightly | simd."""
     if config in _built:
